@@ -592,13 +592,19 @@ class TotalWorld(OracleWorld):
     def skip_next(self, m, st, itref):
         return self.iter_next(m, st, itref, deref_all(m, st, itref))
 
+    def _known_source(self, m, st, it):
+        it = deref_all(m, st, it)
+        while isinstance(it, Opq) and it.kind in ("skip", "rev", "enumerate"):
+            it = deref_all(m, st, it.data[0])
+        return isinstance(it, Opq) and it.kind in ("chars", "char_indices")
+
     def iter_next(self, m, st, ref, it):
-        e = self._elem(m, st, it)
-        if e is None:
+        if not self._known_source(m, st, it):
             return None
+        # (decide before anything fresh is named: a fork re-executes this call)
         if self.decide(st, "next", ["None", "Some"]) == "None":
             return ip.none()
-        return ip.some(e)
+        return ip.some(self._elem(m, st, it))
 
     def split_at(self, m, st, s, mid):
         """str::split_at panics unless `mid` is on a char boundary of s: a byte offset of s, 0 or its length."""
